@@ -213,10 +213,17 @@ func c18Actions(calls []string) []string {
 
 // ------------------------------------------------------- reference model ----
 
+// c18User is one ENTRY of the credentials file, in file order. A key may be
+// omitted from the entry (HasPw / HasPerms false) and a username may occur in
+// several entries. Meaning of the file (documented rule, Appendix C): an entry
+// defines its user completely -- absent password = empty password, absent
+// perms = no permissions -- and the last entry for a username wins.
 type c18User struct {
-	Name  string
-	Pw    string
-	Perms []string
+	Name     string
+	HasPw    bool
+	Pw       string
+	HasPerms bool
+	Perms    []string
 }
 
 type c18Model struct {
@@ -227,12 +234,18 @@ type c18Model struct {
 func c18Build(us []c18User) c18Model {
 	m := c18Model{map[string]string{}, map[string]map[string]bool{}}
 	for _, u := range us {
-		m.pw[u.Name] = u.Pw
-		ps := map[string]bool{}
-		for _, p := range u.Perms {
-			ps[p] = true
+		pw := ""
+		if u.HasPw {
+			pw = u.Pw
 		}
-		m.perms[u.Name] = ps
+		m.pw[u.Name] = pw
+		ps := map[string]bool{}
+		if u.HasPerms {
+			for _, p := range u.Perms {
+				ps[p] = true
+			}
+		}
+		m.perms[u.Name] = ps // a later entry replaces an earlier one completely
 	}
 	return m
 }
@@ -256,46 +269,53 @@ func (m c18Model) aa(u, pw, p string) bool {
 	return m.grant(u, p)
 }
 
+// c18CredFile renders the entries as the TEXT of a credentials file; omitted
+// keys are really absent from the JSON.
 func c18CredFile(us []c18User) string {
-	type ent struct {
-		Username string   `json:"username"`
-		Password string   `json:"password"`
-		Perms    []string `json:"perms"`
-	}
-	es := make([]ent, len(us))
-	for i, u := range us {
-		ps := u.Perms
-		if ps == nil {
-			ps = []string{}
+	var es []string
+	for _, u := range us {
+		n, _ := json.Marshal(u.Name)
+		parts := []string{`"username":` + string(n)}
+		if u.HasPw {
+			b, _ := json.Marshal(u.Pw)
+			parts = append(parts, `"password":`+string(b))
 		}
-		es[i] = ent{u.Name, u.Pw, ps}
+		if u.HasPerms {
+			ps := u.Perms
+			if ps == nil {
+				ps = []string{}
+			}
+			b, _ := json.Marshal(ps)
+			parts = append(parts, `"perms":`+string(b))
+		}
+		es = append(es, "{"+strings.Join(parts, ",")+"}")
 	}
-	b, _ := json.Marshal(es)
-	return string(b)
+	return "[" + strings.Join(es, ",") + "]"
 }
 
 var c18PermVocab = []string{"execute", "query", "backup", "load", "remove", "join", "join-read-only",
 	"join-read-replica", "leader-ops", "status", "ready", "snapshot", "ui"}
 
 func c18GenUsers(rt *rapid.T) []c18User {
-	var us []c18User
-	for _, name := range []string{"u1", "u2", "*"} {
-		present := rapid.IntRange(0, 3).Draw(rt, "present-"+name)
-		if (name == "*" && present < 2) || (name != "*" && present == 0) {
-			continue
+	n := rapid.IntRange(0, 5).Draw(rt, "entries")
+	us := make([]c18User, 0, n)
+	for i := 0; i < n; i++ {
+		// usernames repeat: later entries redefine earlier ones
+		u := c18User{Name: rapid.SampledFrom([]string{"u1", "u1", "u2", "u2", "*"}).Draw(rt, "name")}
+		u.HasPw = rapid.IntRange(0, 3).Draw(rt, "has-password") > 0
+		if u.HasPw {
+			u.Pw = rapid.SampledFrom([]string{"p1", "p2", ""}).Draw(rt, "password")
 		}
-		u := c18User{Name: name, Pw: rapid.SampledFrom([]string{"p1", "p2", ""}).Draw(rt, "pw-"+name)}
-		if name == "*" {
-			u.Pw = ""
-		}
-		k := rapid.IntRange(0, 9).Draw(rt, "kind-"+name)
-		switch {
-		case k == 0:
-			u.Perms = []string{"all"}
-		case k == 1:
-			u.Perms = nil
-		default:
-			u.Perms = rapid.SliceOfNDistinct(rapid.SampledFrom(c18PermVocab), 1, 5, rapid.ID[string]).Draw(rt, "perms-"+name)
+		u.HasPerms = rapid.IntRange(0, 3).Draw(rt, "has-perms") > 0
+		if u.HasPerms {
+			switch k := rapid.IntRange(0, 9).Draw(rt, "perm-kind"); {
+			case k == 0:
+				u.Perms = []string{"all"}
+			case k == 1:
+				u.Perms = nil
+			default:
+				u.Perms = rapid.SliceOfNDistinct(rapid.SampledFrom(c18PermVocab), 1, 5, rapid.ID[string]).Draw(rt, "perms")
+			}
 		}
 		us = append(us, u)
 	}
@@ -449,12 +469,30 @@ func c18ContainsSentinel(b []byte) bool {
 
 func TestVerif_C18_HTTP(t *testing.T) {
 	rec := vstat.New(t, "C18", "http",
-		"rapid draws a credentials file (users subset of {u1,u2,*}, passwords {p1,p2,''}, perms: all / none / 1-5 of the 13 documented perms) and the node role (leader / follower forwarding through proxy.Proxy); per draw EVERY route of ServeHTTP (33 targets incl. variants of /db/*, /boot, /snapshot, /reap, /remove, /status, /nodes, /leader, /readyz, /licenses, /debug/*, /console) x {GET,POST,DELETE,PUT,HEAD,OPTIONS} x 10 presentations {none, u1/u2 right+wrong password, unknown user, '*', empty user, malformed base64, bearer} is sent on a raw TCP connection and read until close; one evaluation = one request; non-trivial = route has a documented permission, method is not OPTIONS, and the expected decision for this route depends on the presentation under this file; distinct by (file, role, route, method, presentation)")
+		"rapid draws the TEXT of a credentials file: 0-5 entries over usernames {u1,u2,*} (repeats = redefinitions), each entry with the password key present (p1/p2/'') or absent and the perms key present (all / [] / 1-5 of the 13 documented perms) or absent; the real auth.CredentialsStore loads the text, the oracle evaluates the documented file meaning (absent password = '', absent perms = none, last entry wins) and the node role (leader / follower forwarding through proxy.Proxy); per draw EVERY route of ServeHTTP (33 targets incl. variants of /db/*, /boot, /snapshot, /reap, /remove, /status, /nodes, /leader, /readyz, /licenses, /debug/*, /console) x {GET,POST,DELETE,PUT,HEAD,OPTIONS} x 10 presentations {none, u1/u2 right+wrong password, unknown user, '*', empty user, malformed base64, bearer} is sent on a raw TCP connection and read until close; one evaluation = one request; non-trivial = route has a documented permission, method is not OPTIONS, and the expected decision for this route depends on the presentation under this file; distinct by (file, role, route, method, presentation)")
 	routes := c18Routes()
 	rapid.Check(t, func(rt *rapid.T) {
 		users := c18GenUsers(rt)
 		follower := rapid.Bool().Draw(rt, "follower")
 		file := c18CredFile(users)
+		{
+			seen, omitted, redefined := map[string]bool{}, false, false
+			for _, u := range users {
+				if !u.HasPw || !u.HasPerms {
+					omitted = true
+				}
+				if seen[u.Name] {
+					redefined = true
+				}
+				seen[u.Name] = true
+			}
+			if omitted {
+				rec.Label("file:entry-omits-a-key")
+			}
+			if redefined {
+				rec.Label("file:username-redefined")
+			}
+		}
 		m := c18Build(users)
 		cs := auth.NewCredentialsStore()
 		if err := cs.Load(strings.NewReader(file)); err != nil {
